@@ -429,6 +429,9 @@ def stats(inp, out):
         w = c[1]
         yield "width=" + ("below" if w < len(text) else "at" if w == len(text) else "above")
         yield "fill=" + ("none" if c[2] is None else "1char" if len(c[2]) == 1 else "badlen")
+        bgs = {a[1] for s, a in runs if s}
+        if text:
+            yield "just_bg=" + ("shared" if len(bgs) == 1 and 0 not in bgs else "none" if bgs == {0} else "not_shared")
 
 
 def shrink(inp):
